@@ -10,6 +10,10 @@ RANGES = "theorems about histories assume `Ranges` of every reached state (all h
 BASE = [KERNEL, MODEL, HARNESS, STDLIB]
 HIST = "Lean 4 theorems (induction over operation histories, invariants, frame lemmas) about an executable model of pkg/sif + byte-exact differential correspondence (Go library vs Lean driver) on generated histories + implementation-only oracle"
 
+CRYPTO = "cryptography is idealised by explicit theorem hypotheses, never axioms: the hash is an arbitrary function `H` (injective where collision resistance is needed, `HInj`), and the third-party envelope layers (encoding/json, clearsign.Decode, OpenPGP signature check, sigstore/go-securesystemslib DSSE verification) enter as universally quantified per-blob facts `SigFacts` constrained by `Honest` (what a trusted key validates decodes to metadata its holder signed); in the driver the facts come from a Go oracle that calls those libraries directly, not pkg/integrity"
+INTEG = "Lean 4 theorems about an executable model of pkg/integrity parametric in hash and envelope facts + differential correspondence on signed-image scenarios (real keys, real Sign/Verify vs Lean model fed by the crypto oracle) + implementation-only oracle"
+IBASE = BASE + [CRYPTO, "modelled, not verified: ProtonMail go-crypto (openpgp, clearsign), sigstore + go-securesystemslib DSSE, encoding/json, encoding/base64, crypto/* hashes (the driver's own SHA-2 is cross-checked against them by every digest comparison of the campaign)"]
+
 PROPS = {
     "C01": {
         "modules": ["SifVerif.Props.C01"],
@@ -82,5 +86,53 @@ PROPS = {
         "summary": "Buffer model ~ POSIX-file model on the library's call shapes; library never truncates beyond the end",
         "trusted_base": BASE + ["the `Backend.file` model of write/ftruncate semantics (validated only by the os.File runs of this campaign)"],
         "assumptions": [CORR, RANGES],
+    },
+    "C04": {
+        "modules": ["SifVerif.Props.C04"],
+        "theorems": ["C04_streams_injective", "C04_sound", "C04_no_change_survives", "C04_unprotected_fields"],
+        "mode": "integ", "technique": INTEG,
+        "level_text": "proof (crypto idealised): the header and descriptor integrity streams are injective encodings of exactly the protected fields (C04_streams_injective); if verification succeeds then for every group task and every signature checked there is a supplied key and metadata its holder signed whose header digest is that of the image's header stream and whose entry at each verified object's position relative to the group holds the digests of that object's descriptor stream and content (C04_sound, under Honest); two images matching the same signed metadata agree on every protected header and descriptor field, the relative position, and the content byte for byte (C04_no_change_survives, under HInj); the fields verification does not notice are not in the streams (C04_unprotected_fields). Tie: tamper campaign - single-bit flips of header/table/data/signatures, catalogue field rewrites, descriptor swaps on images signed with real PGP/DSSE keys; the Lean model decodes the raw bytes itself, recomputes every digest with its own SHA-2 and predicts Verify()'s verdict and results.",
+        "summary": "verify ok => protected view = signed view; integrity streams injective",
+        "trusted_base": IBASE, "assumptions": [CORR, CRYPTO],
+    },
+    "C05": {
+        "modules": ["SifVerif.Props.C05"],
+        "theorems": ["C05_default_sound", "C05_ungrouped_object", "C05_no_groups", "C05_unsigned_group", "C05_whole_group_removed_partial"],
+        "mode": "integ", "technique": INTEG,
+        "level_text": "proof: if NewVerifier with default options followed by Verify succeeds then every live ungrouped object is a signature, at least one group exists, and every group with a live member has at least one non-legacy signature linked to it, each of which was checked with supplied key material, is valid, and carries metadata whose absolute object IDs are exactly the IDs of the group's current members, all of which match their descriptor and content digests (C05_default_sound); hence an ungrouped non-signature object, an unsigned group, an extra or missing member, or no grouped object at all make it fail (C05_ungrouped_object, C05_unsigned_group, C05_no_groups). Known finding D10 (C05_whole_group_removed_partial): removing every member of a group is not noticed because groups are signed independently. Tie: API edits and descriptor-table edits after signing, model verdict vs Verify().",
+        "summary": "default verify ok => all non-signature objects grouped, every group signed, every linked signature valid, signed set = member set",
+        "trusted_base": IBASE, "assumptions": [CORR, CRYPTO],
+    },
+    "C06": {
+        "modules": ["SifVerif.Props.C06"],
+        "theorems": ["C06_sign_shape", "C06_metadata"],
+        "mode": "integ", "technique": INTEG,
+        "level_text": "partial proof: Sign appends, per signer, exactly one ungrouped Signature object linked with the group flag to the signed group, carrying hash type and fingerprint (C06_sign_shape), whose signed message is the metadata of exactly the signer's objects - header digest plus, per object in ascending ID order, relative ID, descriptor-stream digest and content digest (C06_metadata). The end-to-end completeness statement (sign ; verify = ok) is not yet proved in Lean; it is decided by the correspondence and oracle only: every generated image x key kind x selection is signed with the real library, the signed payload must equal the model's encMD byte for byte, the bytes after Sign must equal the model's, and verification of what was signed must succeed on the handle, after reload, after co-signing and after adds elsewhere.",
+        "summary": "sign shape and signed metadata proved; sign;verify completeness by correspondence",
+        "trusted_base": IBASE, "assumptions": [CORR, CRYPTO, "signature generation is third-party: the model takes the envelope blob as an input"],
+    },
+    "C07": {
+        "modules": ["SifVerif.Props.C07"],
+        "theorems": ["C07_decoder", "C07_never_skipped", "C07_foreign_payload", "C07_reported", "C07_fingerprint", "C07_only_trusted", "C07_no_keys"],
+        "mode": "integ", "technique": INTEG,
+        "level_text": "proof: the decoder is chosen by content, missing key material for the chosen scheme or an unrecognised format is an error (C07_decoder, C07_no_keys); on success every signature of every task was checked by a decoder built from supplied material (C07_never_skipped); an envelope of a foreign payload type is never accepted (C07_foreign_payload); the reported keys are exactly the supplied verifiers that validate the envelope and the reported entity is the real signer from the supplied keyring (C07_reported); a PGP-verified signature names its signer's fingerprint (C07_fingerprint); every accepted signature was validated by a supplied key (C07_only_trusted). Tie: (signers, trusted) matrix over PGP/ed25519/ECDSA/RSA keys, scheme mixtures, fingerprint rewrites, foreign payload types, unrecognised formats.",
+        "summary": "decoder choice, no key material => error, fingerprint binding, reported keys = accepting keys",
+        "trusted_base": IBASE, "assumptions": [CORR, CRYPTO],
+    },
+    "C16": {
+        "modules": ["SifVerif.Props.C16"],
+        "theorems": ["C16_filter", "C16_tasks_kind", "C16_no_cross", "C16_json_not_legacy_digest", "C16_legacy_sound", "C16_group_boundaries_unprotected"],
+        "mode": "integ", "technique": INTEG,
+        "level_text": "proof: group-linked signatures are considered iff their kind is the requested one (C16_filter); default mode builds only current-format tasks and legacy modes only legacy tasks (C16_tasks_kind); if every signature linked to a group is of the other kind the request cannot succeed (C16_no_cross) and a JSON plaintext is never a legacy digest (C16_json_not_legacy_digest); a successful legacy verification means a supplied key validated the clear-signed message, the descriptor names that key, and the covered content hashes to the signed digest (C16_legacy_sound); in legacy group mode the unit is the concatenation (C16_group_boundaries_unprotected, observation O1). Tie: shipped legacy images and hand-made SIFHASH signatures mixed with current ones, every mode, with tampering.",
+        "summary": "legacy/current signatures selected only by the matching mode; legacy soundness",
+        "trusted_base": IBASE, "assumptions": [CORR, CRYPTO],
+    },
+    "C17": {
+        "modules": ["SifVerif.Props.C17"],
+        "theorems": ["C17_exact", "C17_read_only", "C17_validated"],
+        "mode": "integ", "technique": INTEG,
+        "level_text": "proof: AnySignedBy/AllSignedBy return, strictly sorted in byte order and duplicate-free, exactly the fingerprints recorded on signatures attached to at least one / every selected task (C17_exact); the listing depends on the image bytes only and produces no new image (C17_read_only); after a successful verification every PGP-path signature of a group task carries the fingerprint of the keyring entity that validated it (C17_validated). Tie: multi-group multi-signer images x task selections, listing vs model and vs an independent recomputation; file bytes compared before/after.",
+        "summary": "any = sorted dedup union, all = sorted dedup intersection; PGP fingerprints listed => validated",
+        "trusted_base": IBASE, "assumptions": [CORR, CRYPTO],
     },
 }
